@@ -313,8 +313,10 @@ def opCcs (s : St) (ver : Nat) : St × List Event :=
 
 /-! ### UpdateSubConnState -/
 
-def dec64 (n : Nat) : Nat := (n + 2^64 - 1) % 2^64
-def inc64 (n : Nat) : Nat := (n + 1) % 2^64
+/-- uint64 decrement: 0 wraps to 2^64-1 (the hazard C04 is about) -/
+def dec64 (n : Nat) : Nat := if n == 0 then 2^64 - 1 else n - 1
+/-- uint64 increment; the wrap at 2^64 live connections is not modelled -/
+def inc64 (n : Nat) : Nat := n + 1
 
 /-- one counter of the connectivityStateEvaluator -/
 def updCounter (s : St) (st : CState) (f : Nat → Nat) : St :=
